@@ -371,7 +371,7 @@ def run(run):
     run.bound = {"microseconds": "0..999999 (all)", "years": YEARS, "tzinfos": [t[0] for t in tzinfos()], "structured_us": len(structured_us(th)),
                  "string_fraction_spellings": len(STRING_FRACS), "object_classes": len(OBJECTS)}
     run.assumptions.append("oracle: integer-arithmetic formatter mc/ref/tsfmt.py (self-tested against datetime on mid-range values)")
-    run.pmap(run_case, cases)
+    run.pmap(run_case, cases, order_independent=True)
     run.part.sample({"kind": "sweep", "us": 129999, "precision": "millisecond", "constraint": "exact", "expected": "2017-03-04T05:06:07.129Z"})
     run.part.sample({"kind": "grid1", "year": 9999, "tz": "-12:00", "point": [12, 31, 23, 59, 59], "us": 999999, "note": "leaves 0001-9999: either outcome"})
     run.part.sample({"kind": "string1", "text": "2017-02-03T04:05:06.1230Z", "precision": "millisecond", "constraint": "min", "expected": "2017-02-03T04:05:06.123Z"})
